@@ -120,3 +120,27 @@ Lemma gen_det3_spec a : gen_det3 ZS a = det_spec 3 a.
 Proof. rewrite <- det3_ok. unfold gen_det3, det3, ZS. cbn [sadd smul ssub sneg T]. ring. Qed.
 Lemma gen_det4_spec a : gen_det4 ZS a = det_spec 4 a.
 Proof. rewrite <- det4_ok. unfold gen_det4, det4, ZS. cbn [sadd smul ssub sneg T]. ring. Qed.
+
+(** the recursive block inversions (general, upper triangular, unit lower triangular) of unary_inv_op.h: in every
+    size class, as translated, the split point N satisfies 0 < N < M - both diagonal blocks are non-empty and
+    strictly smaller, so the recursion is well founded and the block identities (SchurProofs, TriBlockProofs) apply;
+    the classes tile (4, 256] without gaps *)
+From Coq Require Import Lia.
+Ltac Zify.zify_post_hook ::= Z.div_mod_to_equations.
+Lemma split_ok B M : 0 < B -> 2 * B < M -> 0 < M / B * B / 2 < M.
+Proof.
+  intros HB HM.
+  assert (Hq : M / B * B <= M) by (rewrite Nat.mul_comm; apply Nat.mul_div_le; lia).
+  assert (Hq2 : 2 <= M / B) by (apply Nat.div_le_lower_bound; lia).
+  assert (H2 : 2 * B <= M / B * B) by nia.
+  set (x := M / B * B) in *. clearbody x.
+  pose proof (Nat.div_mod x 2 ltac:(lia)). pose proof (Nat.mod_upper_bound x 2 ltac:(lia)). lia.
+Qed.
+Lemma gen_inverse_splits_ok M :
+  Forall (fun '(disp, lo, hi, n) => lo < M <= hi -> 0 < n < M) (gen_inverse_splits M) /\
+  map (fun '(disp, lo, hi, n) => (disp, lo, hi)) (gen_inverse_splits M) =
+  flat_map (fun disp => [(disp, 4, 8); (disp, 8, 16); (disp, 16, 32); (disp, 32, 64); (disp, 64, 128); (disp, 128, 256)]) [1; 2; 0].
+Proof.
+  split; [|reflexivity].
+  unfold gen_inverse_splits. repeat (apply Forall_cons; [intros H; first [lia | apply split_ok; lia]|]). apply Forall_nil.
+Qed.
